@@ -12,6 +12,7 @@ except ImportError:
     # Python <= 3.9
     from collections import Iterable
 import copy
+import os
 import warnings
 
 from .structure import Structure
@@ -199,6 +200,10 @@ class Dendrogram(object):
         # the pixel connects to any existing leaf. Otherwise, create new leaf.
         count = 0
 
+        if os.environ.get('ASTRODENDRO_VERIF'):
+            # verification hook: record the order in which pixels are processed
+            self._verif_order = []
+
         for i in np.argsort(data_values)[::-1]:
 
             def next_idx():
@@ -207,6 +212,9 @@ class Dendrogram(object):
 
             data_value = data_values[i]
             coord = tuple(indices[i])
+
+            if os.environ.get('ASTRODENDRO_VERIF'):
+                self._verif_order.append(coord)
 
             # Print stats
             count += 1
